@@ -61,7 +61,11 @@ Section Subst.
   Fixpoint subst (m : smap) (e : expr) {struct e} : expr :=
     match e with
     | EId x => match rec_get m x with Some a => a | None => EId x end
-    | ENum _ | EStr _ | EBool _ | ENull | EInRef _ | EBuiltin _ => e
+    (* `#field` is `inputs.field` (repo fix of F54, known/C05.json): with `inputs` inlined it is printed the
+       way that form is — `match scope.get("inputs") { Some(v) => "<literal of v>.field", None => "#field" }`;
+       before the fix `#field` was always left in place *)
+    | EInRef f => match rec_get m "inputs" with Some a => EDot a f | None => e end
+    | ENum _ | EStr _ | EBool _ | ENull | EBuiltin _ => e
     | EList items =>
         EList ((fix go (l : list (commented expr)) : list (commented expr) :=
                   match l with
